@@ -110,6 +110,21 @@ pub fn enums() -> Vec<EnumOps> {
         e_ord!("PredefinedOverrideRuleId", c::push::PredefinedOverrideRuleId),
         e_ord!("PredefinedContentRuleId", c::push::PredefinedContentRuleId),
         e_ord!("PredefinedUnderrideRuleId", c::push::PredefinedUnderrideRuleId),
+        e_eq!("StreamPurpose", ev::call::StreamPurpose),
+        e_eq!("HangupReason", ev::call::hangup::Reason),
+        e_eq!("KeyUsage", c::encryption::KeyUsage),
+        e_ord!("SecretName", ev::secret::request::SecretName),
+        e_ord!("KeyDerivationAlgorithm", c::KeyDerivationAlgorithm),
+        e_eq!("KeyRequestAction", ev::room_key_request::Action),
+        e_eq!("TokenType", c::authentication::TokenType),
+        e_eq!("PublicRoomJoinRule", c::directory::PublicRoomJoinRule),
+        e_eq!("SpaceRoomJoinRule", c::space::SpaceRoomJoinRule),
+        e_eq!("StateResJoinRule", ruma_state_res::events::JoinRule),
+        e_ord!("ThumbnailMethod", c::media::Method),
+        e_eq!("MessageFormat", ev::room::message::MessageFormat),
+        e_eq!("ServerNoticeType", ev::room::message::ServerNoticeType),
+        e_eq!("LimitType", ev::room::message::LimitType),
+        e_eq!("Recommendation", ev::policy::rule::Recommendation),
     ]
 }
 
